@@ -403,27 +403,24 @@ def run(ctx):
     nrnd = np.random.default_rng(ctx.seed)
     # 1. model: implementation layer => property layer, exhaustive boxes (parallel JVMs)
     cfgs = (["Features_quick", "Features_quick2", "Features_quickN"] if ctx.quick else
-            ["Features_thorough1", "Features_thorough2", "Features_thorough3", "Features_thoroughN", "Features_cov"])
+            ["Features_thorough1", "Features_thorough2", "Features_thorough3", "Features_thoroughN", "Features_quick2"])
     with ThreadPoolExecutor(max_workers=4) as ex:
-        # -coverage (vacuity control) only on the small box: it multiplies TLC's memory on the large ones
-        res = list(ex.map(lambda c: tlc.run("mc/MC_Features.tla", f"mc/{c}.cfg", workers=4, timeout=3000, heap="6g",
-                                            coverage=(not ctx.quick and c == "Features_cov")), cfgs))
+        res = list(ex.map(lambda c: tlc.run("mc/MC_Features.tla", f"mc/{c}.cfg", workers=4, timeout=3000, heap="6g"), cfgs))
     model_cex = []
     for c, r in zip(cfgs, res):
         ctx.tlc(r, c)
         if not r.ok:
             st = r.error_trace[-1] if r.error_trace else {}
             model_cex.append((c, r.invariant_violated, st))
-        elif not ctx.quick and c == "Features_cov":
-            zero = [a for a in tlc.coverage_zero_actions(r.out)]
-            if zero:
-                raise tlc.TLCError(f"{c}: actions never taken: {zero}")
-    # the model of the tree before the fix: commits must reproduce both defects (the spec can tell them apart)
-    for cfg, inv in (("Features_orig", "Half"), ("Features_orig_succeeds", "Succeeds")):
+    # vacuity control by reachability (TLC's -coverage exhausts the heap on the recursive operators of this module): the states
+    # the invariants speak about (admissible & done; raised) must be reachable, which takes every action of the pipeline.
+    # And the model of the tree before the fix: commits must reproduce both defects (the spec can tell them apart).
+    for cfg, inv in (("Features_reach_NoAdmissibleDone", "NoAdmissibleDone"), ("Features_reach_NoRaise", "NoRaise"),
+                     ("Features_orig", "Half"), ("Features_orig_succeeds", "Succeeds")):
         r = tlc.run("mc/MC_Features.tla", f"mc/{cfg}.cfg", workers=2, timeout=600)
         ctx.tlc(r, cfg)
         if r.ok or r.invariant_violated != inv:
-            raise tlc.TLCError(f"{cfg}: the implementation layer with Variant = \"orig\" should violate {inv} (F7 / F7b) but TLC reports "
+            raise tlc.TLCError(f"{cfg}: TLC should report {inv} violated (reachability / orig-variant counterexample) but reports "
                                f"{r.invariant_violated}")
     ctx.cov["orig_variant_counterexamples"] = ["Half (F7b: swapped rows stored before re-inversion)", "Succeeds (F7: trough + offset = length)"]
     _t(ctx, "model checking")
